@@ -123,7 +123,11 @@ def check_run(res):
         if exc is not None or out != want:
             res.violation('h19:run:' + name, '.run NAME behaves like typing the query text with CLOSE ON defaulting to the query directive date when its FROM clause names none', {'run': name}, (repr(exc) if exc else out[:300]), want[:300])
     # a named query never influences the statements typed after it
-    typed = ['SELECT date, account FROM year = 2020', 'SELECT account, sum(position) FROM year = 2020 OPEN ON 2020-01-15 GROUP BY account ORDER BY account', 'BALANCES FROM year = 2020']
+    # (the texts of the named queries themselves included: running a query must not change what typing its text means;
+    # the expected output is computed from an equivalent re-spelling of the statement, so that it shares no parsed form with it)
+    typed = ['SELECT date, account FROM year = 2020', 'SELECT account, sum(position) FROM year = 2020 OPEN ON 2020-01-15 GROUP BY account ORDER BY account', 'BALANCES FROM year = 2020',
+             'SELECT account, sum(position) AS total FROM year = 2020 GROUP BY account ORDER BY account', 'SELECT date, narration WHERE number > 100 ORDER BY date']
+    respell = lambda st: st.replace('SELECT', 'select ', 1).replace('BALANCES', 'balances ', 1).replace(' FROM ', '  from ', 1) + ' '
     for name, _ in cases + [('nosuch', None)]:
         for between in ([], ['.set boxed false', '.tables']):
             sess = Session()
@@ -134,7 +138,7 @@ def check_run(res):
             for st in typed:
                 res.case(('after-run', name, len(between), st), {'run': name, 'then': st})
                 out, err, exc = sess.run(st)
-                want = api_render(conn, st, DEFAULTS)
+                want = api_render(conn, respell(st), DEFAULTS)
                 if exc is not None or out != want:
                     res.violation('h19:statement-after-run', 'a typed statement prints what the API returns whatever was run before', {'run': name, 'then': st}, (repr(exc) if exc else out[:300]), want[:300])
     sess = Session()
